@@ -210,6 +210,9 @@ func runC11(c *CaseCtx) (res CaseResult) {
 	if c.Idx%15 == 4 {
 		return runCrossNestedOnce(c, r)
 	}
+	if c.Idx%25 == 3 {
+		return runC11Shapes(c, r)
+	}
 	if c.Idx%8 >= 5 {
 		return runC11Concurrent(c, r)
 	}
